@@ -501,6 +501,54 @@ def r9_fresh_arrays_and_zero_minimum(idx, r):
     r.ok("UniformMeshGenerator:minimumMeshSize-tests-scanned", g)
 
 
+def r10_direction_every_value_every_overlap(idx, r):
+    """(a) applyStateToOriginal maps results BACK: the parameter set of the "out" direction is selected before any mapping call on every
+    path - whole-core and assembly-by-assembly alike; otherwise the still-active "in" set (BOL masses) is mapped and flux, power ... never
+    return.  convert() selects "in" the same way.  (b) ParamMapper._scalarParamSetter writes every (name, value) pair it is given: zero is a
+    value (a block with no power after a step that had some).  (c) Assembly.getBlocksBetweenElevations collects EVERY block that overlaps the
+    window: no return from inside the loop over the blocks."""
+    umc = idx.cls(UM + ".UniformMeshGeometryConverter")
+    for meth, direction in (("applyStateToOriginal", "out"), ("convert", "in")):
+        f = umc.methods.get(meth)
+        if f is None:
+            raise AnchorMissing(f"UniformMeshGeometryConverter.{meth}")
+
+        def ev(nd, direction=direction):
+            if isinstance(nd, ast.Call) and dotted(nd.func) == "self._setParamsToUpdate" and nd.args and isinstance(nd.args[0], ast.Constant) and nd.args[0].value == direction:
+                return ["dir"]
+            return []
+        fl = Flow(f.node, ev).run()
+        maps = [c for c in iter_calls(f.node) if call_attr(c) in ("setAssemblyStateFromOverlaps", "_mapStateFromReactorToOther", "mapParamsToBlock", "_applyCachedParamValues")]
+        if not maps:
+            raise AnchorMissing(f"{meth}: mapping calls")
+        for c in maps:
+            st = fl.state_before(c) or {}
+            r.require(st.get("dir", (0, 0))[0] >= 1, f"{meth}:{call_attr(c)}:after-selecting-the-{direction}-parameters", f, node=c,
+                      msg=f"`{norm(c)[:70]}` can be reached without `_setParamsToUpdate('{direction}')`: the parameter set of the other direction is mapped")
+    pm = idx.cls(UM + ".ParamMapper")
+    sc = pm.methods.get("_scalarParamSetter")
+    if sc is None:
+        raise AnchorMissing("ParamMapper._scalarParamSetter")
+    sts = [s_ for s_ in iter_stores(sc.node) if s_.kind == "subscript" and norm(s_.node.value).endswith(".p")]
+    if len(sts) != 1:
+        raise AnchorMissing("_scalarParamSetter: the store")
+    conds = [norm(t) for t, _p in path_conditions(sc.node, sts[0].stmt)]
+    r.require(not conds, "_scalarParamSetter:every-pair-written", sc, node=sts[0].stmt,
+              msg=f"a value is only written under {conds}: a mapped result that fails the test (exactly zero) leaves the destination block with its previous value")
+    g = idx.method("armi.reactor.assemblies.Assembly", "getBlocksBetweenElevations")
+    loops = [x for x in g.node.body if isinstance(x, ast.For)]
+    if not loops:
+        raise AnchorMissing("getBlocksBetweenElevations: the loop over the blocks")
+    early = [x for x in walk_local(loops[0]) if isinstance(x, ast.Return)]
+    r.require(not early, "getBlocksBetweenElevations:whole-stack-scanned", g, node=early[0] if early else None,
+              msg="the loop over the blocks returns from inside: the slivers of the neighbouring blocks that also overlap the window are dropped and the overlaps no longer sum to the window")
+
+
+def r11_pairing(idx, r):
+    from ..pairing import pairing_rule
+    pairing_rule(idx, r, ["armi.reactor.converters.uniformMesh", "armi.reactor.converters.meshConverters", "armi.reactor.assemblies"], 60)
+
+
 def run(idx, chk):
     chk.explanation = (
         "C11: the two overlap-mapping functions are typed with role generators for overlap / destination / source heights: densities scale by "
@@ -528,3 +576,7 @@ def run(idx, chk):
                  necessary="volumes and atoms are apportioned by the overlap of source and destination intervals")
     chk.run_rule("R11.9", "values mapped onto a block are stored as new arrays; the optional minimum mesh size is compared with None", lambda r: r9_fresh_arrays_and_zero_minimum(idx, r), floor=3,
                  necessary="mapping back gives every block its own values; material boundaries stay in the mesh for every admitted minimum")
+    chk.run_rule("R11.10", "the mapping direction is selected before any mapping call; every scalar is written; every overlapping block is collected", lambda r: r10_direction_every_value_every_overlap(idx, r), floor=4,
+                 necessary="integral quantities are conserved in both directions and averaged quantities are the overlap-weighted means")
+    chk.run_rule("R11.11", "arguments stand at the parameter they are named after; sibling calls forward the same pass-through parameters", lambda r: r11_pairing(idx, r), floor=1,
+                 necessary="source and destination are not exchanged")
